@@ -123,7 +123,7 @@ def run(cx):
         ok = len(r) == 1 and norm(r[0]) == f"self.repos[{rid}]"
         cx.ob("R07d", l, ok, "each id is resolved to its own repository" if ok else "repository lookup altered", stmt="lookup")
     # ------------------------------------------------------------------ R07e
-    _r07e(cx, repo)
+    cx.guard(_r07e, cx, repo)
 
 
 CONTROL = """
